@@ -4,7 +4,7 @@ import ast
 from sa.cfg import cfg_of
 from sa.effects import attr_writes
 from sa.program import AnalysisError, dotted, norm, own_nodes
-from sa.util import (assignments_to, calls_in, cfg_node_of, compare_parts, guards_at, self_calls_in,
+from sa.util import (assignments_to, calls_in, cfg_node_of, compare_parts, enclosing_loops, guards_at, self_calls_in,
                      stmt_text)
 from . import shared
 from .roles import CONFIG_ATTR, VIEWS, roles
@@ -55,29 +55,32 @@ def run(ctx):
         sel_stmt = g.nodes[sel_nodes[0]].ast
         var = sel_stmt.targets[0].id if isinstance(sel_stmt, ast.Assign) and isinstance(sel_stmt.targets[0], ast.Name) else None
         c.need(var, f"variable holding the selection result in {pe.short}")
-        rets = []
-        for n in g.nodes:
-            if n.kind == "stmt" and isinstance(n.ast, ast.Return):
-                at = guards_at(pe, n.ast)
-                if any(isinstance(a, ast.Name) and a.id == var and not pol for a, pol in at):
-                    rets.append(n.id)
-        c.expect("R2", f"empty-selection return in {pe.short}", len(rets), 1, pe, f"{pe.short} has no early return for an empty selection any more: an event with no nominee runs on into the transition machinery (notifications, settle, history) instead of being a no-op")
-        for rn in rets:
-            between = g.reachable_from_succ(sel_nodes[0], follow_exc=False)
-            back = {n.id for n in g.nodes if g.can_reach(n.id, rn, follow_exc=False)}
-            region = (between & back) - {rn}
-            offenders = []
-            for nid in region:
-                node = g.nodes[nid]
-                if node.kind == "test":
-                    continue
-                for x in ast.walk(node.ast):
-                    if isinstance(x, ast.Call) and not (isinstance(x.func, ast.Attribute) and dotted(x.func.value) == "logger"):
-                        offenders.append(x)
-            c.ob("R2", not offenders, pe, "no-nominee-return",
-                 "nothing but logging between selection and the empty-selection return" if not offenders else
-                 f"an unhandled event is not a no-op: '{stmt_text(offenders[0])}' runs before the empty-selection return",
-                 g.nodes[rn].ast)
+        # fact: with an empty selection nothing but logging runs after the selection call (whether written as an early return, as
+        # an ``if selected: ...`` around the rest, or as a bare loop over the selection)
+        after = g.reachable_from_succ(sel_nodes[0], follow_exc=False)
+        offenders = []
+        n_calls = 0
+        for nid in after:
+            node = g.nodes[nid]
+            if node.ast is None or nid in sel_nodes:
+                continue
+            calls_here = [x for x in ast.walk(node.ast) if isinstance(x, ast.Call) and not (isinstance(x.func, ast.Attribute) and dotted(x.func.value) == "logger")
+                          and not (isinstance(x.func, ast.Name) and x.func.id in ("len", "isinstance", "list", "tuple", "sorted"))]
+            if node.kind in ("stmt", "test") and isinstance(node.ast, (ast.For, ast.While, ast.If, ast.Try, ast.With)):
+                continue          # compound statements are represented by their parts
+            for x in calls_here:
+                n_calls += 1
+                at = guards_at(pe, x)
+                nonempty = any(isinstance(a, ast.Name) and a.id == var and pol for a, pol in at) or \
+                    any(isinstance(l, ast.For) and isinstance(l.iter, ast.Name) and l.iter.id == var for l in enclosing_loops(pe, x))
+                if not nonempty:
+                    offenders.append(x)
+        c.expect("R2", f"operations after the selection in {pe.short}", n_calls, 1, pe, f"{pe.short} does nothing with the selected transitions")
+        c.ob("R2", not offenders, pe, "no-nominee-return",
+             "nothing but logging runs after an empty selection" if not offenders else
+             f"an unhandled event is not a no-op: '{stmt_text(offenders[0])}' runs although the selection is empty (it is not under a test of '{var}'): "
+             f"an event with no nominee runs on into the transition machinery (notifications, settle, history)",
+             offenders[0] if offenders else sel[0])
     # ---- R3 stale-source skip --------------------------------------------------
     for v in VIEWS:
         r = roles(ctx, v)
